@@ -61,18 +61,21 @@ def storage(inp):
     return dict(fmt=fmt, shape=[n, n], indptr=indptr, indices=indices, data=data)
 
 
+_SCALE = [1.0]   # physical scale 2^e of the matrix entries of the job being executed (exact in doubles)
+
+
 def _scipy(rec):
     import scipy.sparse as sps
 
     cls = sps.csr_matrix if rec["fmt"] == "csr" else sps.csc_matrix
-    return cls((np.array(rec["data"], dtype=float), np.array(rec["indices"], dtype=np.int32),
+    return cls((np.array(rec["data"], dtype=float) * _SCALE[0], np.array(rec["indices"], dtype=np.int32),
                 np.array(rec["indptr"], dtype=np.int32)), shape=tuple(rec["shape"]))
 
 
 def _enc_inverse(X):
     """csr / csc result -> raw storage with data rounded to integers (exactly representable within TOL)."""
     X = X if X.getformat() in ("csr", "csc") else X.tocsr()
-    d = np.asarray(X.data, dtype=float)
+    d = np.asarray(X.data, dtype=float) * _SCALE[0]   # inverse of (2^e A) is 2^-e inverse(A): scaled back exactly
     r = np.round(d)
     if d.size and (not np.all(np.isfinite(d)) or np.max(np.abs(d - r)) > TOL):
         return dict(kind="nonint", worst=repr(float(np.max(np.abs(d - r)))) if np.all(np.isfinite(d)) else "nan")
@@ -94,6 +97,10 @@ def execute(job):
     from porepy.numerics.linalg import matrix_operations as mo
 
     fam, inp, numba = job["fam"], job["in"], job["numba"]
+    # the matrix handed to the code is 2^e A (e = inp["pscale"]); everything judged refers to the integer matrix A.  A
+    # power of two commutes with every floating-point operation of the inverters, so only code that depends on the
+    # absolute size of the entries (absolute tolerances) can tell the difference
+    _SCALE[0] = 2.0 ** int(inp.get("pscale", 0))
     sizes = np.array(inp["sizes"], dtype=np.int64)
     out = {}
     if fam == "blocks":
@@ -238,7 +245,7 @@ def run(ctx):
                 "permutation; each input is executed on the real inverters (python path on all, numba path on the marked "
                 "sub-lattice, permuted inverter with the computed and with the constructing permutation); TLC recomputes "
                 "A from the blocks and judges A*X = I and ValidPerm exactly (J_BlockDiag); plus seeded random structures "
-                f"with 1-5 blocks of sizes 1-6; lattice = {json.dumps({k: str(v) for k, v in consts.items()})}")
+                f"with 1-5 blocks of sizes 1-6; every fifth input again with all entries scaled by 2^-50 and 2^40; lattice = {json.dumps({k: str(v) for k, v in consts.items()})}")
     ctx.assumptions = ["blocks are integer unimodular with |entries| <= 12 (block and inverse): the float result must be within "
                        "1e-9 of the integer inverse", "block sizes >= 1 (size-0 entries of s are not generated)",
                        "finest decomposition (connected components) is reported as drift, not demanded"]
@@ -257,6 +264,13 @@ def run(ctx):
     for fam in ("blocks", "perm"):
         for _ in range(nrand):
             jobs.append(_job(random_input(ctx.rng, fam, 6), True))
+    # every fifth input again with entries of size 2^-50 (~1e-15) and 2^40
+    scaled = []
+    for i, j in enumerate(jobs):
+        if i % 5 == 0:
+            scaled.append(dict(j, **{"in": dict(j["in"], pscale=(-50 if (i // 5) % 2 == 0 else 40))}))
+    jobs += scaled
+    ctx.extra["scaled_inputs"] = len(scaled)
     outs = run_jobs(jobs, 8 if ctx.quick else 12)
     cases = [dict(fam=j["fam"], **{"in": j["in"]}, out=o, numba=j["numba"]) for j, o in zip(jobs, outs)]
     CH = 20000
@@ -265,14 +279,14 @@ def run(ctx):
         _dispatch(ctx, chunk, ctx.judge("J_BlockDiag", chunk, CLAUSES, tag=f"judge{c0 // CH}", timeout=3000))
     for c in cases:
         i = c["in"]
-        ctx.case(key=(c["fam"], tuple(i["sizes"]), i["fmt"], i["layout"], i["variant"], c["numba"]),
+        ctx.case(key=(c["fam"], tuple(i["sizes"]), i["fmt"], i["layout"], i["variant"], c["numba"], i.get("pscale", 0)),
                  nontrivial=sum(i["sizes"]) > 1)
     for fam in ("blocks", "perm"):
         mine = [c for c in cases[:n_enum] if c["fam"] == fam and sum(c["in"]["sizes"]) >= 3]
         if mine:
             ctx.sample(mine[len(mine) // 2])
     ctx.extra["enumerated_inputs"] = n_enum
-    ctx.extra["random_inputs"] = len(cases) - n_enum
+    ctx.extra["random_inputs"] = len(cases) - n_enum - len(scaled)
     ctx.extra["numba_path_cases"] = sum(1 for c in cases if c["fam"] == "blocks" and c["numba"])
     ctx.extra["python_path_cases"] = sum(1 for c in cases if c["fam"] == "blocks")
     ctx.extra["permuted_cases"] = sum(1 for c in cases if c["fam"] == "perm")
